@@ -360,6 +360,159 @@ def upown_classify(line, res):
     return c
 
 
+# ---------------- kind startcfg: configuration errors are reported, nothing acquired on the way is left behind
+SC_UPS = ["udp", "tcp", "tcpp", "tls", "tlsp", "https", "http", "h3", "quic", "doq"]
+SC_UP_FAULTS = ["notag", "duptag", "noaddr", "scheme", "badtag", "camissing", "cagarbage", "certmissing",
+                "certgarbage", "mismatch", "vccnoca"]
+SC_UP_ACCEPTED = ["certonly", "keyonly"]          # a lone client cert / key is ignored by makeTlsConfig(.., false)
+SC_SRVS = ["udp", "tcp", "gnet", "http", "fasthttp", "tls", "https", "quic"]
+SC_TLS_SRVS = ["tls", "https", "quic"]
+SC_SRV_FAULTS = ["inuse", "proto", "badaddr"]
+SC_TLS_FAULTS = ["nocert", "certonly", "keyonly", "certmissing", "certgarbage", "mismatch", "camissing", "cagarbage",
+                 "vccnoca"]
+# faults that are NOT errors for the item they are attached to (the oracle must not demand an error)
+def _sc_is_error(comp, kind, fault):
+    if not fault:
+        return False
+    if comp == "u" and fault in SC_UP_ACCEPTED:
+        return False
+    if comp == "s" and fault in SC_TLS_FAULTS and kind not in SC_TLS_SRVS:
+        return False
+    return True
+
+
+def _sc_items(cfg):
+    out = []
+    for it in cfg.split(";"):
+        if not it:
+            continue
+        body, _, fault = it.partition("!")
+        comp, _, kind = body.partition(":")
+        out.append((comp, kind, fault))
+    return out
+
+
+def startcfg_gen(rng, tier):
+    out = []
+    n = [0]
+
+    def add(items, mode=None):
+        l = "k%d cfg=%s" % (n[0], ";".join(items))
+        if mode:
+            l += " mode=" + mode
+        out.append(l)
+        n[0] += 1
+
+    thorough = tier != "quick"
+    # (1) upstream faults.  The two that strike AFTER NewUpstream (duplicate tag is checked before it, metrics
+    #     registration after it) for EVERY upstream kind, behind an upstream that already owns a socket.
+    for k in SC_UPS:
+        add(["m", "u:udp", "u:quic", "u:%s!duptag" % k, "s:udp"])
+        add(["u:udp", "u:%s!badtag" % k, "d", "r", "s:udp"])
+    for fl in SC_UP_FAULTS + SC_UP_ACCEPTED:
+        ks = SC_UPS if thorough else rng.sample(SC_UPS, 3) + ["quic"]
+        for k in ks:
+            if fl in ("duptag", "badtag") and not thorough:
+                continue
+            add(["m", "u:h3", "u:%s!%s" % (k, fl), "c:none", "s:udp"])
+    # (2) listener faults: every kind x every fault, first in the list and behind listeners that are already up
+    for k in SC_SRVS:
+        fls = SC_SRV_FAULTS + (SC_TLS_FAULTS if k in SC_TLS_SRVS else [])
+        for fl in fls:
+            add(["s:%s!%s" % (k, fl)])
+            others = rng.sample(SC_SRVS, rng.randint(1, 3))
+            pre = ["m"] if rng.random() < 0.5 else []
+            pre += ["u:%s" % rng.choice(["quic", "h3", "doq", "udp"])]
+            pre += [rng.choice(["c:mem", "c:none", "c:marker"])] if rng.random() < 0.3 else []
+            add(pre + ["s:%s" % o for o in others] + ["s:%s!%s" % (k, fl)])
+    # a tls section on a listener that does not use it is ignored: not an error
+    add(["s:udp!certonly", "s:tcp!keyonly", "s:http!camissing"])
+    # (3) domain sets, rules, cache, metrics - behind components that hold something
+    for fl in ("notag", "duptag", "nofile", "baddata"):
+        add(["m", "u:quic", "d", "d!%s" % fl, "r", "s:udp"])
+    for fl in ("noset", "noup"):
+        add(["u:h3", "u:udp", "d", "r", "r!%s" % fl, "c:mem", "s:tcp"])
+    for ck, fl in (("none", "nomarker"), ("mem", "nomarker"), ("mem", "badmarker"), ("mem", "badredis"),
+                   ("none", "badredis"), ("memmarker", "badredis")):
+        add(["m", "u:quic", "c:%s!%s" % (ck, fl), "s:udp"])
+    add(["m!inuse", "u:quic", "s:udp"])
+    # (4) nothing wrong: start, close, nothing left (every listener kind, metrics, cache, socket-owning upstreams)
+    add(["m", "u:udp", "u:quic", "u:h3", "d", "r", "c:memmarker"] + ["s:%s" % k for k in SC_SRVS])
+    add(["u:udp", "s:udp"])
+    add(["m", "u:doq", "c:mem", "s:quic", "s:https", "s:gnet"])
+    # (5) the real binary: exit status
+    for items in (["s:tls!certonly"], ["s:https!keyonly"], ["s:quic!certonly"], ["u:udp", "u:quic!duptag", "s:udp"],
+                  ["s:udp!proto"], ["u:udp!scheme", "s:udp"], ["s:tls!mismatch"], ["u:tls!camissing", "s:udp"],
+                  ["s:udp", "s:quic!nocert"]):
+        add(items, mode="bin")
+    # (6) random configurations with at most one fault
+    reps = budget(tier, 25, 800)
+    for _ in range(reps):
+        items = []
+        if rng.random() < 0.5:
+            items.append("m")
+        ups = [rng.choice(SC_UPS) for _ in range(rng.randint(1, 3))]
+        items += ["u:%s" % k for k in ups]
+        nd = rng.randint(0, 2)
+        items += ["d"] * nd
+        items += ["r"] * rng.randint(0, 2)
+        items.append("c:%s" % rng.choice(["none", "none", "mem", "marker"]))
+        srvs = [rng.choice(SC_SRVS) for _ in range(rng.randint(1, 4))]
+        items += ["s:%s" % k for k in srvs]
+        if rng.random() < 0.85:
+            # one fault at a random item that can carry one
+            idx = [i for i, it in enumerate(items) if it[0] in "usd" and not (it[0] == "d" and nd < 1)]
+            i = rng.choice(idx)
+            comp, _, kind = items[i].partition(":")
+            if comp == "u":
+                fl = rng.choice(SC_UP_FAULTS + SC_UP_ACCEPTED)
+                if fl == "duptag" and i == min(j for j, x in enumerate(items) if x.startswith("u:")):
+                    fl = "noaddr"
+            elif comp == "s":
+                fl = rng.choice(SC_SRV_FAULTS + (SC_TLS_FAULTS if kind in SC_TLS_SRVS else []))
+            else:
+                fl = rng.choice(["notag", "nofile", "baddata"])
+            items[i] += "!" + fl
+        add(items)
+    return out
+
+
+def startcfg_oracle(line, res):
+    f = gens.fields(line)
+    r = gens.fields(res)
+    if "res" not in r:
+        return None
+    items = _sc_items(f["cfg"])
+    must = any(_sc_is_error(c, k, fl) for (c, k, fl) in items)
+    why = []
+    if must and r["res"] != "ERR":
+        bad = ["%s:%s!%s" % it for it in items if _sc_is_error(*it)]
+        why.append("the configuration error %s was not reported: run() returned %s" % (bad[0], r["res"]))
+    if not must and r["res"] != "OK":
+        why.append("a valid configuration did not start (%s)" % r["res"])
+    if r.get("sock", "0") not in ("0", "-"):
+        why.append("%s socket(s) per run() left open" % r["sock"])
+    if r.get("fd", "0") not in ("0", "-"):
+        why.append("%s file descriptor(s) per run() left open" % r["fd"])
+    if r.get("gor", "0") not in ("0", "-"):
+        why.append("goroutines left running after run() returned")
+    return "; ".join(why) if why else None
+
+
+def startcfg_classify(line, res):
+    f = gens.fields(line)
+    items = _sc_items(f["cfg"])
+    faulty = [(c, k, fl) for (c, k, fl) in items if fl]
+    mode = f.get("mode", "inproc")
+    if not faulty:
+        return mode + "/valid"
+    c, k, fl = faulty[0]
+    pos = items.index(faulty[0])
+    held = any(x[0] in ("m", "s") or (x[0] == "u" and x[1] in ("quic", "doq", "h3")) or
+               (x[0] == "c" and "mem" in x[1]) for x in items[:pos])
+    return "%s/%s:%s!%s/%s" % (mode, c, k, fl, "behind-held" if held else "first")
+
+
 # ---------------- kind startup
 PROTOS = ["udp", "tcp", "gnet", "http", "fasthttp", "tls", "https", "quic"]
 
@@ -482,6 +635,8 @@ PROPS["C18"] = dict(
              nontrivial=lambda l, r: True, timeout=600),
         dict(name="upown", gen=upown_gen, oracle=upown_oracle, classify=upown_classify,
              nontrivial=lambda l, r: True, timeout=900),
+        dict(name="startcfg", gen=startcfg_gen, oracle=startcfg_oracle, classify=startcfg_classify,
+             nontrivial=lambda l, r: True, timeout=900),
         dict(name="startup", gen=startup_gen, oracle=startup_oracle, classify=startup_classify,
              nontrivial=lambda l, r: True, timeout=900,
              env={}),
@@ -498,20 +653,32 @@ PROPS["C18"] = dict(
          "Close, in-flight exchanges, a new exchange on the upstream and on each leg of a udp upstream, sockets of "
          "the process (Opt.Control + /proc/self/fd) and connections still open at the server; compared with the "
          "composite model (Net/ShutdownOwn.v); "
+         "startcfg: configurations as item lists (metrics, 10 upstream kinds, domain sets, rules, cache, 8 listener "
+         "kinds) with one fault from the catalogue of configuration errors (duplicate / missing tag, missing addr, "
+         "unknown scheme / protocol, metrics registration failure, port in use, bad address, no / half / unreadable / "
+         "garbage / mismatching certificate, bad ca file, verify_client_cert without ca, missing / bad domain, marker "
+         "file, bad redis url) at every kind, first in the list and behind components that already hold sockets or "
+         "goroutines; one child process per case, run() three times: error reported, sockets / other fds / goroutines "
+         "left over per run (garbage collection off so that unreachable sockets stay visible); a few through the real "
+         "binary (exit status); compared with the init programs of Router/StartupInit.v; "
          "startup: failing listener at every position of a list holding all 8 listener kinds (port in use, "
          "unknown protocol, bad certificate path, bad address), failing upstream / domain set / rule / cache / "
          "metrics listener, in-process and through the real binary; distinct = distinct case line",
     assumptions=["loopback sockets; net.Pipe connections for the scripted transports; quiescence = no observable "
                  "activity for 14 ms; Close must return within 2 s, router close within 5 s",
                  "injected dialers honour context cancellation (dm=honour) or complete late (dm=ignore)"],
-    trusted=["C18: which parts an upstream owns and which its Close names (uo_owned, uo_close_prog) is read off "
+    trusted=["C18: the init programs (si_prog_of: order of checks, acquisitions and the release on each error path) "
+             "and the fault -> failing statement table (si_fault_stmt) are read off app/router by hand and tied to the "
+             "code by kind startcfg; goroutines of fasthttp's worker-pool cleaner (10 s sleep) are not counted",
+             "C18: which parts an upstream owns and which its Close names (uo_owned, uo_close_prog) is read off "
              "upstream.go by hand and tied to the code by kind upown; the library parts (connTracker, quic.Transport, "
              "UDP socket) are counters, not models of net/http / quic-go",
              "C18: small-step models at atomic-action granularity; Go mutex/channel atomicity, net/http, quic-go, "
              "gnet, fasthttp modelled not verified; 'returns promptly' is timed, not proved"],
     level_note="partial: the theorems cover the close-race logic of the reuse, pipeline and quic transports at "
                "atomic-action granularity, the upstream as a composite of the transports / sockets it owns (Close "
-               "closes every owned part exactly once, from every reachable state) and the start-up/close sequence of "
-               "the router; promptness, the kernel's socket release and the HTTP/QUIC libraries are sampled by the "
+               "closes every owned part exactly once, from every reachable state), the start-up/close sequence of "
+               "the router and the init programs of its components (every acquired resource is registered or "
+               "released on the error path, for every failing statement); promptness, the kernel's socket release and the HTTP/QUIC libraries are sampled by the "
                "harness",
 )
